@@ -17,6 +17,7 @@ EXPLANATION = (
     "Not decided: user lock types whose unlock() throws; fairness.")
 ASSUMPTIONS = ["pika::detail::unlock_guard unlocks in its constructor and locks in its destructor (thread_support/unlock_guard.hpp)",
                "notifiers acquire the user lock before notifying (user contract stated in the property)"]
+THOROUGH_CONFIGS = [["-UNDEBUG", "-DPIKA_DEBUG"]]
 FLOORS = {"C07.R1": 8, "C07.R2": 3, "C07.R3": 6, "C07.R4": 4, "C07.R5": 10}
 
 INTERNAL = "data->mtx_"
